@@ -554,34 +554,38 @@ class World:
                     model.recv_idx[peer].append(i)
                 return
             # unordered and/or partially reliable: attribute to one send()
+            used = model.recv_idx[peer]
+            last = used[-1] if used else -1
+            same = [k for k, s in enumerate(sent) if s == msg and type(s) is type(msg)]
             idx = None
             if hdr is not None:
-                k = hdr[2]
-                if 0 <= k < len(sent) and sent[k] == msg and type(sent[k]) is type(msg):
-                    idx = k
+                if hdr[2] in same:
+                    idx = hdr[2]
+            elif model.ordered:
+                # headerless (empty) message on an ordered channel: the delivered
+                # sequence must be a subsequence of the sent one; greedy earliest
+                # feasible match decides that exactly
+                later = [k for k in same if k > last]
+                idx = later[0] if later else (same[0] if same else None)
             else:
-                for k, s in enumerate(sent):
-                    if k not in model.recv_idx[peer] and s == msg and type(s) is type(msg):
-                        idx = k
-                        break
-                if idx is None and any(s == msg and type(s) is type(msg) for s in sent):
-                    idx = -2  # an empty message delivered more often than sent
+                free = [k for k in same if k not in used]
+                idx = free[0] if free else (same[0] if same else None)
             got.append(msg)
             if idx is None:
                 self.violation(prop, "delivered-message-was-never-sent",
                                "tag=%s dir=%s>%s %s" % (model.tag, peer, side, short(msg)))
                 model.broken = True
                 return
-            if idx == -2 or idx in model.recv_idx[peer]:
-                self.violation(prop, "duplicate-delivery", "tag=%s dir=%s>%s %s" % (
-                    model.tag, peer, side, short(msg)))
+            if idx in used:
+                self.violation(prop, "duplicate-delivery", "tag=%s dir=%s>%s idx=%d %s" % (
+                    model.tag, peer, side, idx, short(msg)))
                 model.broken = True
                 return
-            if model.ordered and model.recv_idx[peer] and idx < model.recv_idx[peer][-1]:
+            if model.ordered and idx < last:
                 self.violation(prop, "ordered:out-of-order", "tag=%s dir=%s>%s idx=%d after %d" % (
-                    model.tag, peer, side, idx, model.recv_idx[peer][-1]))
+                    model.tag, peer, side, idx, last))
                 model.broken = True
-            model.recv_idx[peer].append(idx)
+            used.append(idx)
         except Exception as exc:  # noqa
             self.harness_note(exc)
 
